@@ -37,10 +37,12 @@ open Model Model.VerifierChecks Model.RefVerifier Model.RefProver WinterProofs.R
 /-! ## 1. What a successful run of the prover consists of (inversion of the three phases) -/
 
 theorem proveRun_ok {J : Inst} {E : EOps} {d : Desc} {trace : List (List Nat)} {o : Serde.ProofOptions} {r : Run}
-    (h : proveRun J E d trace o = .ok r) :
+    (hna : d.aux = none) (h : proveRun J E d trace o = .ok r) :
     phase1 J E d trace o = .ok r.p1 ∧ phase2 J E o (d.air.n * o.blowup) r.p1.deepEvals r.p1.c7 = .ok r.p2 ∧
-      phase3 J E o (d.air.n * o.blowup) r.p1 r.p2 = .ok r.p3 := by
+      phase3 J E o (d.air.n * o.blowup) r.p1 r.p2 = .ok r.p3 ∧ (r.p1.auxCommit = none → r.auxOpen = none) := by
   unfold proveRun at h
+  rw [hna] at h
+  simp only at h
   split at h
   · cases h
   · rename_i p1 h1
@@ -50,9 +52,17 @@ theorem proveRun_ok {J : Inst} {E : EOps} {d : Desc} {trace : List (List Nat)} {
       split at h
       · cases h
       · rename_i p3 h3
-        injection h with h
-        subst h
-        exact ⟨h1, h2, h3⟩
+        split at h
+        · injection h with h
+          subst h
+          exact ⟨h1, h2, h3, fun _ => rfl⟩
+        · rename_i ac hac
+          split at h
+          · injection h with h
+            subst h
+            refine ⟨h1, h2, h3, fun hn => ?_⟩
+            rw [hn] at hac; cases hac
+          · cases h
 
 /-- the facts about phase 1 the theorems below use -/
 structure Phase1Ok (J : Inst) (E : EOps) (d : Desc) (trace : List (List Nat)) (o : Serde.ProofOptions)
@@ -72,6 +82,8 @@ structure Phase1Ok (J : Inst) (E : EOps) (d : Desc) (trace : List (List Nat)) (o
   z : (coinOps J E).draw ((coinOps J E).reseed p.c3 p.croot) = some (p.z, p.c4)
   c6 : p.c6 = (coinOps J E).reseed ((coinOps J E).reseed p.c4 (hashEls J p.oodTrace)) (hashEls J p.oodEvals)
   deep : drawMany (coinOps J E) (d.air.width + p.ncols) p.c6 = some (p.deep, p.c7)
+  auxCommit : p.auxCommit = none
+  auxRoot : p.auxRoot = none
 
 theorem evalRows_length (E : EOps) (polys : List (List El)) (xs : List El) : (evalRows E polys xs).length = xs.length := by
   simp [evalRows]
@@ -142,7 +154,7 @@ theorem phase1_ok {J : Inst} {E : EOps} {d : Desc} {trace : List (List Nat)} {o 
                                         have hxs' : (ldePoints J (d.air.n * o.blowup)).length = d.air.n * o.blowup :=
                                           Decidable.of_not_not hxs
                                         refine ⟨by simpa using haux, rfl, by simpa using hwf, hpubs, hair,
-                                          ⟨_, ?_, htc⟩, htroot, rfl, hco, ⟨_, ?_, hcc⟩, hcroot, hz, rfl, hdeep⟩
+                                          ⟨_, ?_, htc⟩, htroot, rfl, hco, ⟨_, ?_, hcc⟩, hcroot, hz, rfl, hdeep, rfl, rfl⟩
                                         · rw [evalRows_length]; exact hxs'
                                         · rw [evalRows_length, List.length_map]; exact hxs'
 
@@ -470,14 +482,14 @@ def runChallenges (J : Inst) (r : Run) (aLast : El) (c9 : CoinSt) : Challenges C
     `bookkeeping_of_wellFormed` for admissible options) and one more element from the coin after the remainder
     commitment `hlast` (the verifier draws an alpha there, the prover does not) -/
 theorem challenges_of_run {J : Inst} {E : EOps} {d : Desc} {trace : List (List Nat)} {o : Serde.ProofOptions} {r : Run}
-    (acc : Acceptable) (hrun : proveRun J E d trace o = .ok r) (aLast : El) (c9 : CoinSt)
+    (acc : Acceptable) (hna : d.aux = none) (hrun : proveRun J E d trace o = .ok r) (aLast : El) (c9 : CoinSt)
     (hlast : (coinOps J E).draw r.p2.c8 = some (aLast, c9))
     (hood : evalConstraints E d r.pubs r.ctx.traceInfo [] [] r.p1.coeffs r.p1.oodTrace r.p1.z
       = combineOod E d.air.n r.p1.z r.p1.oodEvals)
     (mdk : Nat) (hbk : Protocol.degreeBookkeeping d.air.n (friOpts o).folding
       (Fri.numFriLayers (friOpts o) (d.air.n * o.blowup)) = some mdk) :
     challenges (mkVerifier J E d r.pubs acc) r.ctx r.cm = .ok (runChallenges J r aLast c9) := by
-  obtain ⟨h1, h2, h3⟩ := proveRun_ok hrun
+  obtain ⟨h1, h2, h3, hao⟩ := proveRun_ok hna hrun
   have P1 := phase1_ok h1
   have P2 := phase2_ok h2
   have P3 := phase3_ok h3
@@ -601,14 +613,14 @@ theorem lde_pow2 {J : Inst} {d : Desc} {o : Serde.ProofOptions} (h : (contextOf 
 def friAccepts (J : Inst) (E : EOps) (d : Desc) (o : Serde.ProofOptions) (r : Run) (aLast : El) (c9 : CoinSt) : Prop :=
   friVerify (mkVerifier J E d r.pubs (.optionSet [o])) (airInst J E d r.pubs r.ctx) r.cm r.op (runChallenges J r aLast c9)
     (deepCompose E d.air.n (d.air.n * o.blowup) d.air.width (d.air.width + 0) (d.air.width + 0) none r.positions r.p1.z r.p1.deep
-      [r.p3.traceOpen.rows] r.p3.consOpen.rows r.p1.oodTrace r.p1.oodEvals) = .ok ()
+      (r.op.traceOpenings.map (·.rows)) r.p3.consOpen.rows r.p1.oodTrace r.p1.oodEvals) = .ok ()
 
 /-- **acceptance of the run's proof by the verifier's decision function** (`VerifierChecks.verify` at the concrete
     verifier record, acceptance policy "exactly these options"): header checks, challenges (section 5), proof of
     work, the trace and constraint openings (C10) are discharged; OOD consistency, FRI acceptance of the DEEP
     evaluations, the non-truncating bookkeeping and the extra coin element are hypotheses -/
 theorem verify_of_run {J : Inst} {E : EOps} {d : Desc} {trace : List (List Nat)} {o : Serde.ProofOptions} {r : Run}
-    (hrun : proveRun J E d trace o = .ok r) (aLast : El) (c9 : CoinSt)
+    (hna : d.aux = none) (hrun : proveRun J E d trace o = .ok r) (aLast : El) (c9 : CoinSt)
     (hlast : (coinOps J E).draw r.p2.c8 = some (aLast, c9))
     (hood : evalConstraints E d r.pubs r.ctx.traceInfo [] [] r.p1.coeffs r.p1.oodTrace r.p1.z
       = combineOod E d.air.n r.p1.z r.p1.oodEvals)
@@ -616,8 +628,8 @@ theorem verify_of_run {J : Inst} {E : EOps} {d : Desc} {trace : List (List Nat)}
       (Fri.numFriLayers (friOpts o) (d.air.n * o.blowup)) = some mdk)
     (hfri : friAccepts J E d o r aLast c9) :
     VerifierChecks.verify (mkVerifier J E d r.pubs (.optionSet [o])) r.ctx (some (r.cm, r.op)) = .ok () := by
-  have hch := challenges_of_run (.optionSet [o]) hrun aLast c9 hlast hood mdk hbk
-  obtain ⟨h1, h2, h3⟩ := proveRun_ok hrun
+  have hch := challenges_of_run (.optionSet [o]) hna hrun aLast c9 hlast hood mdk hbk
+  obtain ⟨h1, h2, h3, hao⟩ := proveRun_ok hna hrun
   have P1 := phase1_ok h1
   have P3 := phase3_ok h3
   have hctx : r.ctx = contextOf J d o := P1.ctx
@@ -675,7 +687,8 @@ theorem verify_of_run {J : Inst} {E : EOps} {d : Desc} {trace : List (List Nat)}
   have hpc : (runChallenges J r aLast c9).positions = r.positions := rfl
   have ht : ((r.cm.traceRoots.zip r.op.traceOpenings).all fun ro =>
       openingOk (mkVerifier J E d r.pubs (.optionSet [o])) ro.1 (runChallenges J r aLast c9).positions ro.2 dd) = true := by
-    simp only [Run.cm, Run.op, List.zip_cons_cons, List.zip_nil_right, List.all_cons, List.all_nil, Bool.and_true, hpc]
+    simp only [Run.cm, Run.op, P1.auxRoot, hao P1.auxCommit, Option.toList, List.zip_cons_cons, List.zip_nil_right,
+      List.all_cons, List.all_nil, Bool.and_true, hpc]
     exact (openingOk_iff _ _ _ _ _).mpr hto
   rw [ht]
   simp only [Bool.not_true, Bool.false_eq_true, if_false]
@@ -831,12 +844,12 @@ structure Open (J : Inst) (E : EOps) (d : Desc) (o : Serde.ProofOptions) (r : Ru
     positions, the Merkle openings of the trace and constraint commitments (C10), the non-truncating degree
     bookkeeping (C01), and the composition of all checks into the verdict (`refVerify_ok_iff`). -/
 theorem c01_complete_exec_partial {J : Inst} {E : EOps} {d : Desc} {trace : List (List Nat)} {o : Serde.ProofOptions}
-    {r : Run} {bs : List Nat}
+    {r : Run} {bs : List Nat} (hna : d.aux = none)
     (hE : extOps J o.fieldExt = some E) (hrun : proveRun J E d trace o = .ok r) (hbs : refProve J d trace o = .ok bs)
     (hsched : Protocol.wellFormed (d.air.n * o.blowup) (glueOpts o) = true) (O : Open J E d o r bs) :
     ∃ bs, refProve J d trace o = .ok bs ∧ refVerify J d (refPubInputs J d trace) (.optionSet [o]) bs = .ok := by
   refine ⟨bs, hbs, ?_⟩
-  obtain ⟨h1, _, _⟩ := proveRun_ok hrun
+  obtain ⟨h1, _, _, _⟩ := proveRun_ok hna hrun
   have P1 := phase1_ok h1
   have hpubs : refPubInputs J d trace = r.pubs := by
     unfold refPubInputs; rw [P1.pubs]; rfl
@@ -846,7 +859,7 @@ theorem c01_complete_exec_partial {J : Inst} {E : EOps} {d : Desc} {trace : List
   obtain ⟨mdk, hbk⟩ := bookkeeping_of_admissible P1.wf hsched
   refine (refVerify_ok_iff J d r.pubs (.optionSet [o]) bs).mpr ⟨p, ncols, E, c, hfront, ?_⟩
   rw [hctx, hcm, hop]
-  exact verify_of_run hrun aLast c9 hlast O.ood mdk hbk hfri
+  exact verify_of_run hna hrun aLast c9 hlast O.ood mdk hbk hfri
 
 /-- in the shape of the full statement: an admissible configuration whose run completes and satisfies `Open` is
     on the accepting side of `C01_complete_exec` -/
@@ -856,7 +869,7 @@ theorem c01_complete_exec_of_open {J : Inst} {E : EOps} {d : Desc} {trace : List
     (O : Open J E d o r bs) :
     (∃ bs, refProve J d trace o = .ok bs ∧ refVerify J d (refPubInputs J d trace) (.optionSet [o]) bs = .ok) ∨
       CoinAccident J d trace o :=
-  Or.inl (c01_complete_exec_partial hE hrun hbs hadm.sched O)
+  Or.inl (c01_complete_exec_partial hadm.noAux hE hrun hbs hadm.sched O)
 
 /-! ## 9. The open hypotheses are decidable on a concrete run, and hold on one -/
 
@@ -888,7 +901,7 @@ def openCheck (J : Inst) (E : EOps) (d : Desc) (trace : List (List Nat)) (o : Se
             (match friVerify (mkVerifier J E d r.pubs (.optionSet [o])) (airInst J E d r.pubs r.ctx) r.cm r.op
                 (runChallenges J r aLast c9)
                 (deepCompose E d.air.n (d.air.n * o.blowup) d.air.width (d.air.width + 0) (d.air.width + 0) none r.positions r.p1.z r.p1.deep
-                  [r.p3.traceOpen.rows] r.p3.consOpen.rows r.p1.oodTrace r.p1.oodEvals) with
+                  (r.op.traceOpenings.map (·.rows)) r.p3.consOpen.rows r.p1.oodTrace r.p1.oodEvals) with
              | .ok _ => true
              | .error _ => false)
           | none => false
@@ -899,7 +912,7 @@ def openCheck (J : Inst) (E : EOps) (d : Desc) (trace : List (List Nat)) (o : Se
 
 /-- soundness of the decision procedure -/
 theorem open_of_check {J : Inst} {E : EOps} {d : Desc} {trace : List (List Nat)} {o : Serde.ProofOptions}
-    (hE : extOps J o.fieldExt = some E) (h : openCheck J E d trace o = true) :
+    (hna : d.aux = none) (hE : extOps J o.fieldExt = some E) (h : openCheck J E d trace o = true) :
     ∃ r bs, proveRun J E d trace o = .ok r ∧ refProve J d trace o = .ok bs ∧ Open J E d o r bs := by
   unfold openCheck at h
   split at h
@@ -919,7 +932,7 @@ theorem open_of_check {J : Inst} {E : EOps} {d : Desc} {trace : List (List Nat)}
               split at hfri
               · rename_i u hu; cases u; exact hu
               · cases hfri
-            have P1 := phase1_ok (proveRun_ok hr).1
+            have P1 := phase1_ok (proveRun_ok hna hr).1
             have hopt : p.context.options.fieldExt = o.fieldExt := by
               rw [hctx, show r.ctx = r.p1.ctx from rfl, P1.ctx]; rfl
             have hgkr : (d.lagrange && decide (p.context.traceInfo.aux > 0) && gkrUndecodable c.gkr) = false := by
@@ -949,9 +962,9 @@ example :
       Open Inst.toy (baseOps Inst.toy.I Inst.toy.norm) descPer8 optsW2 r bs ∧
       refVerify Inst.toy descPer8 (refPubInputs Inst.toy descPer8 tracePer8) (.optionSet [optsW2]) bs = .ok := by
   have hE : extOps Inst.toy optsW2.fieldExt = some (baseOps Inst.toy.I Inst.toy.norm) := rfl
-  obtain ⟨r, bs, hr, hb, hO⟩ := open_of_check hE open_check_per8
+  obtain ⟨r, bs, hr, hb, hO⟩ := open_of_check rfl hE open_check_per8
   have hw : Protocol.wellFormed (descPer8.air.n * optsW2.blowup) (glueOpts optsW2) = true := by decide +kernel
-  obtain ⟨bs', hb', hv⟩ := c01_complete_exec_partial hE hr hb hw hO
+  obtain ⟨bs', hb', hv⟩ := c01_complete_exec_partial rfl hE hr hb hw hO
   rw [hb] at hb'
   injection hb' with hb'
   subst hb'
